@@ -604,6 +604,15 @@ def _run_T(ctx, case, d, name, A, info, R, t, K, seed):
             # admissibility by conditioning is only known from the reference trajectory of the intended start
             adm_e = info.struct_ok
             U0e = gp[1] if gp else (_expected_random_init(shape, R, ini["s"]) if ini["kind"] == "random" else None)
+            if ini["kind"] == "nvecs" and _benign(e):
+                # the start the library derives from the data (its correctness is property C14): is ALS from THAT
+                # start inside the quantifier?
+                try:
+                    with FixedArpackStart(ctx):
+                        Xn = build_holder(name, d, A)
+                        U0e = [np.array(Xn.nvecs(n, R), dtype=float) for n in range(N)]
+                except Exception:  # noqa: BLE001
+                    U0e = None
             if adm_e and U0e is not None:
                 adm_e = get_ref(U0e)[min(k, K) - 1]["cond"] <= COND_MAX
             if _benign(e) and not adm_e:
